@@ -106,7 +106,11 @@ pub fn exec_case_main(props: &[Property], file: &str) -> i32 {
         Ok(Err(Stop::Skip(_))) => 0,
         Ok(Err(Stop::Fail(msg))) => {
             println!("FAIL {}: {}", sub, msg);
-            1
+            if msg.contains("observation lost:") {
+                4
+            } else {
+                1
+            }
         }
     }
 }
@@ -276,7 +280,9 @@ pub fn run_main(props: &[Property], id: &str, tier: Tier, seed: u64) -> i32 {
         match end {
             JobEnd::Done(st) => {
                 if let Some(f) = &st.failure {
-                    if f.case.is_null() {
+                    if f.case.is_null() || f.message.contains("observation lost:") {
+                        // generator abort, or the harness lost its (hook-free) view of private structure:
+                        // infrastructure problems, never reported as violations
                         inconclusive.push(format!("{} shard {}: {}", sub, shard, f.message));
                     } else {
                         let path = f.replay_path.clone().unwrap_or_else(|| "<unwritable>".into());
